@@ -1,11 +1,11 @@
 import json, os, subprocess
 
 SPEC = {
-    "lean_modules": ["SemaModel.C02.Props", "SemaModel.Compose.Props"],
+    "lean_modules": ["SemaModel.C02.Props", "SemaModel.Compose.Props", "SemaModel.Compose.RankProps"],
     "lean_dirs": ["SemaModel/C02", "SemaModel/Compose"],
     "harness": "c02",
-    "harness_args": {"quick": ["-shards", 48, "-batches", 14, "-searches", 18, "-searchx", 6],
-                     "thorough": ["-shards", 500, "-batches", 22, "-searches", 24, "-searchx", 8]},
+    "harness_args": {"quick": ["-shards", 48, "-batches", 14, "-searches", 18, "-searchx", 6, "-rank", 200],
+                     "thorough": ["-shards", 500, "-batches", 22, "-searches", 24, "-searchx", 8, "-rank", 2500]},
     "timeout": {"quick": 600, "thorough": 3000},
     "level": "proof",
     "tie": "T2: tools/facts_c02 extracts (go/ast) the operator table of IndexInverted.Search, the arms of processChange and getOperation, the array combinators and what string.go lower-cases into Generated/FactsC02.lean on every run; SemaModel/C02/Lemmas.lean pins each table next to the model definition transcribing it; T1: the key functions in every theorem are the toByteSortable_* definitions of SemaModel/Generated/Sortable.lean, regenerated from shard/index/inverted/sortable.go on every run; T3: the hand-written model of inverted.go / string.go / array.go / dispatch.go / search.go (SemaModel/C02/Model.lean) and a real shard (bbolt file and memory backend) are run on the same histories of write batches and queries, comparing every query answer and a dump of every index bucket after every batch; the specification of each query is additionally evaluated straight from the documents against the real answers (oracle)",
@@ -18,8 +18,14 @@ SPEC = {
         "Sema.Compose.Compose_step", "Sema.Compose.Compose_inv_history", "Sema.Compose.Compose_insert_fresh",
         "Sema.Compose.Compose_rejected_noop", "Sema.Compose.Compose_filter_state", "Sema.Compose.Compose_filter_exact",
         "Sema.Compose.Compose_select_star", "Sema.Compose.Compose_write_read", "Sema.Compose.Compose_histOK_of_final",
+        # the composition extended to ranking queries: + C04 (flat store), C05 (text index), C06 (hybrid merge) — SemaModel/Compose/Rank*.lean
+        "Sema.Compose.Compose_rank_step", "Sema.Compose.Compose_rank_rejected_noop", "Sema.Compose.Compose_rank_inv_history",
+        "Sema.Compose.Compose_flat_state", "Sema.Compose.Compose_flat_exact", "Sema.Compose.Compose_flat_count",
+        "Sema.Compose.Compose_flat_no_closer", "Sema.Compose.Compose_text_state", "Sema.Compose.Compose_text_exact",
+        "Sema.Compose.Compose_hybrid_state", "Sema.Compose.Compose_hybrid",
     ],
     "trusted_base": [
+        "SemaModel/Compose/RankModel.lean (the combined model extended by the ranking indexes: per vectorFlat entry the set of (node id, vector) pairs, per text entry C05's index, both fed by the same change stream; C04's flat search, C05's text search and C02's filter leaves under C06's searchParallel / back-fill / paging) is tied to the code by a third correspondence run: the compiled model (`semadriver C02 rank`) answers histories on real shards with an integer, a vectorFlat (2-d integer grid, squared Euclidean: exact, ties frequent) and a text index (tokens from the real bleve analyser, idf table from Go's math.Log10) — every write, a dump of the flat bucket and of the text postings after every batch, plain and hybrid `searchr` requests compared modulo ties (groups of equal hybrid score; a tie cut by a plain query's limit by size only); vectors, distances, scores and weights are abstract in every theorem, the driver instantiates them with grid coordinates, exact naturals and IEEE float32 bit patterns; quantizer none, vector dimension = index dimension (C18), rejected batches are not in this stream",
         "SemaModel/Compose/Model.lean (the combined model: C01's point store + C02's indexes + C06's answer pipeline; new in it: the change stream of a batch, the index verdict, one write step for both, searchPoints) is tied to the code by a second correspondence run: the compiled combined model (`semadriver C02 compose`) answers every op line of the same histories — allocating the node ids itself, compared with the ones the shard allocated — plus `searchx` lines (select / sort / offset / limit through the whole SearchPoints pipeline); a stored top-level value is opaque text in the point store and is read by two parameters (Conv.idx, Conv.sel) — theorems hold for every such pair, the driver's pair is the value syntax of the op lines",
         "SemaModel/C02/Model.lean is a hand transcription of inverted.go, string.go, array.go, dispatch.go/utils.go (getOperation, casts) and search.go; tied to the code by the correspondence run only (answers and bucket dumps)",
         "roaring bitmaps are finite sets of node ids (CheckedAdd/CheckedRemove/FastOr/FastAnd/IsEmpty/ToBytes/ReadFrom trusted); the stored bytes are modelled as the concatenated little-endian ids",
@@ -60,13 +66,16 @@ def run(ctx):
         return res
     p = lambda *a: os.path.join(rundir, *a)
     have_compose = os.path.exists(p("compose", "ops.txt"))
-    # the two model runs are independent: run them side by side
+    have_rank = os.path.exists(p("rank", "ops.txt"))
+    # the model runs are independent: run them side by side
     from concurrent.futures import ThreadPoolExecutor
-    with ThreadPoolExecutor(max_workers=2) as ex:
+    with ThreadPoolExecutor(max_workers=3) as ex:
         f1 = ex.submit(r.run_driver, "C02", p("ops.txt"), p("model.txt"))
         f2 = ex.submit(r.run_driver, "C02", p("compose", "ops.txt"), p("compose", "model.txt"), ("compose",)) if have_compose else None
+        f3 = ex.submit(r.run_driver, "C02", p("rank", "ops.txt"), p("rank", "model.txt"), ("rank",)) if have_rank else None
         ok, err = f1.result()
         ok2, err2 = f2.result() if f2 else (False, "")
+        ok3, err3 = f3.result() if f3 else (False, "")
     if not ok:
         res["broken"].append(("driver-run", "semadriver C02", err[-2000:]))
     else:
@@ -92,6 +101,27 @@ def run(ctx):
             stats["samples"] = stats.get("samples", []) + [s for s in cst.get("samples", []) if s.startswith("searchx")][:4]
     else:
         res["broken"].append(("harness-run", "c02 -searchx", "the harness wrote no compose/ops.txt"))
+    # the combined model WITH RANKING INDEXES (`semadriver C02 rank` on rank/ops.txt: histories on shards with a filter,
+    # a vectorFlat and a text index; index dumps after every batch; plain and hybrid `searchr` requests)
+    if have_rank:
+        if not ok3:
+            res["broken"].append(("driver-run", "semadriver C02 rank", err3[-2000:]))
+        else:
+            dis, n = r.diff_lines(p("rank", "ops.txt"), p("rank", "impl.txt"), p("rank", "model.txt"))
+            for d in dis:
+                d["mode"] = "combined model with ranking indexes (semadriver C02 rank); replay the history up to this line"
+            res["disagreements"] += dis
+            res["compared"] += n
+            rst = json.load(open(p("rank", "stats.json")))
+            stats["rank_op_lines"] = rst.get("evaluations", 0)
+            stats["rank_distinct_nontrivial"] = rst.get("distinct_nontrivial", 0)
+            for k, v in rst.get("distribution", {}).items():
+                if k.startswith("searchr") or k in ("fdump", "tdump"):
+                    stats.setdefault("distribution", {})["rank:" + k] = v
+                    stats["evaluations"] = stats.get("evaluations", 0) + v
+            stats["samples"] = stats.get("samples", []) + [s for s in rst.get("samples", []) if s.startswith("searchr")][:4]
+    else:
+        res["broken"].append(("harness-run", "c02 -rank", "the harness wrote no rank/ops.txt"))
     res["stats"] = stats
     return res
 
